@@ -296,17 +296,24 @@ func exec(in *input, gen hopGen) []segObs {
 
 // ---------------------------------------------------------------------------- Coq printing
 
+func uniform(b []byte) bool {
+	for _, x := range b {
+		if x != b[0] {
+			return false
+		}
+	}
+	return true
+}
+
 func cVal(b []byte) string {
 	if len(b) > 6 {
-		uniform := true
-		for _, x := range b {
-			if x != b[0] {
-				uniform = false
-				break
-			}
-		}
-		if uniform {
+		switch {
+		case uniform(b):
 			return fmt.Sprintf("(rep %d %d)", len(b), b[0])
+		case uniform(b[1:]):
+			return fmt.Sprintf("(cons %d (rep %d %d))", b[0], len(b)-1, b[1])
+		case uniform(b[:len(b)-1]):
+			return fmt.Sprintf("(app (rep %d %d) (cons %d nil))", len(b)-1, b[0], b[len(b)-1])
 		}
 	}
 	return emit.Bytes(b)
@@ -415,6 +422,7 @@ func sameOval(a, b oval) bool { return a.Exists == b.Exists && bytes.Equal(a.V, 
 func classify(in *input, obs []segObs) (sig string, stats map[string]int) {
 	stats = map[string]int{}
 	under := map[string]oval{}
+	changedPrev := map[string]oval{}
 	for _, e := range in.Base {
 		under[string(e.K)] = oval{true, e.V}
 	}
@@ -488,14 +496,34 @@ func classify(in *input, obs []segObs) (sig string, stats map[string]int) {
 				}
 			}
 		}
+		// expected published listing
+		exp := map[string]oval{}
+		for k, v := range changedPrev {
+			exp[k] = v
+		}
+		if sg.Commit {
+			for k, v := range cur {
+				if !sameOval(v, under[k]) {
+					exp[k] = v
+				}
+			}
+		}
+		got := map[string]oval{}
+		for _, e := range o.Changed {
+			got[string(e.K)] = e.V
+		}
+		if len(got) != len(exp) {
+			set("commit-published-wrong-key-set")
+		}
+		for k, v := range exp {
+			if g, ok := got[k]; !ok || !sameOval(g, v) {
+				set("commit-published-wrong-value")
+			}
+		}
+		changedPrev = got
 		if sg.Commit {
 			for k, v := range cur {
 				under[k] = v
-			}
-			for _, e := range o.Changed {
-				if !sameOval(under[string(e.K)], e.V) {
-					set("commit-published-wrong-value")
-				}
 			}
 		}
 	}
@@ -523,6 +551,20 @@ func mkKey(prefix string, chunks uint16) []byte {
 }
 
 func fill(n int, b byte) []byte { return bytes.Repeat([]byte{b}, n) }
+
+// variant returns a value of the same length that differs from v only in its last (or first) byte
+func variant(r *rand.Rand, v []byte) []byte {
+	if len(v) == 0 {
+		return v
+	}
+	w := clone(v)
+	if r.Intn(3) == 0 {
+		w[0] ^= byte(1 + r.Intn(3))
+	} else {
+		w[len(w)-1] ^= byte(1 + r.Intn(3))
+	}
+	return w
+}
 
 type caseGen struct {
 	r      *rand.Rand
@@ -553,6 +595,9 @@ func (g *caseGen) valFor(ki int) []byte {
 	if r.Intn(100) < 55 && len(g.pool) > 0 {
 		v := g.pool[r.Intn(len(g.pool))]
 		if len(v) <= limit {
+			if r.Intn(100) < 30 && uniform(v) {
+				return variant(r, v) // same length, differs in one byte only
+			}
 			return v
 		}
 	}
@@ -609,10 +654,15 @@ func (g *caseGen) next(rn *runner, segIdx int, step int) (hop, bool) {
 	case x < 26: // insert
 		v := g.valFor(ki)
 		y := r.Intn(100)
-		if y < 30 && hasParent {
+		switch {
+		case y < 26 && hasParent:
 			v = parent // back to the parent value: "unchanged" detection
-		} else if y < 40 && err == nil {
+		case y < 32 && hasParent && uniform(parent):
+			v = variant(r, parent) // almost the parent value
+		case y < 40 && err == nil:
 			v = cur // same as current: not an op
+		case y < 46 && err == nil && uniform(cur):
+			v = variant(r, cur) // almost the current value
 		}
 		return hop{Op: "ins", K: k, V: v}, true
 	case x < 46:
